@@ -8,9 +8,13 @@
    of the method text and the status the value of the three digits.  Near misses (TAB / CR / LF
    instead of the single SP, two SPs, a code that is not three digits followed by SP) are rejected
    with "bad character" at the offending position.
-   Not proved: the converse (every accepted first line has one of the two shapes) - carried by the
-   'legal reading' oracle and the correspondence run. *)
-From Sipsp Require Import Harness Classify IP4 Numbers FLineSpec.
+   The converse (FLineConv.v, C08_accepted_first_line_has_the_shape): whatever one call of ParseFLine on
+   a fresh object accepts is a line of one of the two shapes, split exactly there - three non-empty
+   tokens without white space separated by single SPs and a line end; or the version prefix, three
+   digits, SP, a reason without CR / LF, a line end - with exactly those extents, method number and
+   status.  So lines violating the single-space grammar are rejected rather than mis-split.  (A call
+   sequence over chunks yields the same object: C02.) *)
+From Sipsp Require Import Harness Classify IP4 Numbers FLineSpec FLineConv.
 From Sipsp Require Import Tables.
 
 Theorem C08_request_line : forall p m u v c y crl, is_crlf c = true -> skipCRLF (c :: y) = COk crl ->
@@ -72,3 +76,36 @@ Example C08_status_example :
   parse_fline ([83;73;80;47;50;46;48;32;50;48;48;32;79;75;13;10]) 0 fline0
   = Done 16 EOk (mkfline 200 0 pf0 pf0 (mkpf 0 7) (mkpf 8 3) (mkpf 12 2) FlFIN).
 Proof. vm_compute. reflexivity. Qed.
+
+(* ---- the converse ------------------------------------------------------------------------------------------------------------------------ *)
+Theorem C08_accepted_first_line_has_the_shape : forall (p rest : list byte) o s',
+  parse_fline (p ++ rest) (nnat (length p)) fline0 = Done o EOk s' ->
+  if prefix_nocase go_sipVerSP rest then rpl_shape rest (nnat (length p)) o s' else req_shape rest (nnat (length p)) o s'.
+Proof. exact first_line_converse. Qed.
+(* the two shapes, spelled out *)
+Theorem C08_request_shape : forall rest i o s, req_shape rest i o s <->
+  exists (m u v : list byte) (crl : nat) (tail : list byte),
+    rest = m ++ SP :: u ++ SP :: v ++ tail /\
+    (tok m /\ m <> [] /\ tok u /\ u <> [] /\ tok v /\ v <> []) /\
+    skipCRLF tail = COk crl /\
+    fl_method s = mkpf i (nnat (length m)) /\
+    fl_uri s = mkpf (i + nnat (length m) + 1) (nnat (length u)) /\
+    fl_version s = mkpf (i + nnat (length m) + 1 + nnat (length u) + 1) (nnat (length v)) /\
+    fl_methodno s = get_method_no m /\
+    o = i + nnat (length m) + 1 + nnat (length u) + 1 + nnat (length v) + nnat crl /\
+    (fl_status s = 0 /\ fl_statuscode s = pf0 /\ fl_state s = FlFIN).
+Proof. intros. reflexivity. Qed.
+Theorem C08_reply_shape : forall rest i o s, rpl_shape rest i o s <->
+  exists (ver : list byte) (a b c : byte) (reason : list byte) (crl : nat) (tail : list byte),
+    rest = ver ++ a :: b :: c :: SP :: reason ++ tail /\
+    length ver = length go_sipVerSP /\ eqb_nocase ver go_sipVerSP = true /\
+    (is_digit a = true /\ is_digit b = true /\ is_digit c = true) /\
+    Forall (fun x => is_crlf x = false) reason /\ skipCRLF tail = COk crl /\
+    fl_version s = mkpf i (nnat (length go_sipVerSP) - 1) /\
+    fl_statuscode s = mkpf (i + nnat (length go_sipVerSP)) 3 /\
+    fl_status s = (digit_val a * 100 + digit_val b * 10 + digit_val c) mod 65536 /\
+    fl_reason s = mkpf (i + nnat (length go_sipVerSP) + 4) (nnat (length reason)) /\
+    o = i + nnat (length go_sipVerSP) + 4 + nnat (length reason) + nnat crl /\
+    fl_state s = FlFIN.
+Proof. intros. reflexivity. Qed.
+Print Assumptions C08_accepted_first_line_has_the_shape.
